@@ -16,6 +16,7 @@ from fs.path import abspath, normpath, join
 
 from ..common import PyCTRError
 from ..crypto import CryptoEngine, KeyslotMissingError, Keyslot
+from ..crypto.engine import CTRFileIO
 from .sdtitle import SDTitleReader
 
 if TYPE_CHECKING:
@@ -122,6 +123,15 @@ class SDRoot:
                              dev=self._crypto.dev, seed=seed, load_contents=load_contents)
 
 
+class _AppendingCTRFileIO(CTRFileIO):
+    """A file opened for appending: every write goes to the end of the file, wherever the position was moved to."""
+
+    def write(self, data: bytes) -> int:
+        # the underlying file puts the data at its end by itself; the counter has to be the one for that place
+        self.seek(0, 2)
+        return super().write(data)
+
+
 class SDFS(SubFS):
     """
     Enables access to an SD card filesystem inside Nintendo 3DS/id0/id1.
@@ -167,6 +177,9 @@ class SDFS(SubFS):
             raise NotImplementedError('files under "Nintendo DSiWare" currently cannot be opened with this method')
 
         fh = super().openbin(path, mode, buffering, **options)
+        if 'a' in mode:
+            return _AppendingCTRFileIO(fh, self._crypto, Keyslot.SD, self._crypto.sd_path_to_iv(normpath(abspath(path))),
+                                       closefd=True)
         return self._crypto.create_ctr_io(Keyslot.SD, fh, self._crypto.sd_path_to_iv(normpath(abspath(path))),
                                           closefd=True)
 
